@@ -88,22 +88,22 @@ func c18Run(t *testing.T, p c18Plan) (res vfResult) {
 			if target%2 == 1 {
 				targets = append(targets, vfActivePool[(target+1)%len(vfActivePool)])
 			}
-			return rt.DeployService(svc, targets, so, to, 2*time.Second, 300*time.Millisecond)
+			return vfDeploy(rt, svc, targets, so, to, 2*time.Second, 300*time.Millisecond)
 		}
 		// a reachable starting state
 		deploy(r, "s0", 0)
 		deploy(r, "s1", 1)
-		r.SetRolloutTargets("s0", []string{vfRolloutPool[0]}, 2*time.Second, 300*time.Millisecond)
-		r.SetRolloutSplit("s0", 50, []string{"vip"})
+		vfRolloutDeploy(r, "s0", []string{vfRolloutPool[0]}, 2*time.Second, 300*time.Millisecond)
+		vfRolloutSet(r, "s0", 50, []string{"vip"})
 		if p.Restore {
-			r.PauseService("s1", 100*time.Millisecond, 500*time.Millisecond)
+			vfPause(r, "s1", 100*time.Millisecond, 500*time.Millisecond)
 			nr := NewRouter(r.statePath)
 			if err := nr.RestoreLastSavedState(); err != nil {
 				res.failf("restore-failed", "%v", err)
 				return
 			}
-			r.RemoveService("s0")
-			r.RemoveService("s1")
+			vfRemove(r, "s0")
+			vfRemove(r, "s1")
 			w.adopt(nr)
 			r = nr
 			res.label("restored-router")
@@ -137,21 +137,21 @@ func c18Run(t *testing.T, p c18Plan) (res vfResult) {
 						case "deploy":
 							deploy(r, op.Svc, op.Target)
 						case "rollout-deploy":
-							r.SetRolloutTargets(op.Svc, []string{vfRolloutPool[op.Target%len(vfRolloutPool)]}, 2*time.Second, 300*time.Millisecond)
+							vfRolloutDeploy(r, op.Svc, []string{vfRolloutPool[op.Target%len(vfRolloutPool)]}, 2*time.Second, 300*time.Millisecond)
 						case "rollout-set":
-							r.SetRolloutSplit(op.Svc, op.Pct, []string{"vip"})
+							vfRolloutSet(r, op.Svc, op.Pct, []string{"vip"})
 						case "rollout-stop":
-							r.StopRollout(op.Svc)
+							vfRolloutStop(r, op.Svc)
 						case "pause":
-							r.PauseService(op.Svc, 200*time.Millisecond, 300*time.Millisecond)
+							vfPause(r, op.Svc, 200*time.Millisecond, 300*time.Millisecond)
 						case "stop":
-							r.StopService(op.Svc, 200*time.Millisecond, "msg")
+							vfStop(r, op.Svc, 200*time.Millisecond, "msg")
 						case "resume":
-							r.ResumeService(op.Svc)
+							vfResume(r, op.Svc)
 						case "remove":
-							r.RemoveService(op.Svc)
+							vfRemove(r, op.Svc)
 						case "list":
-							r.ListActiveServices()
+							vfList(r)
 						case "getcert":
 							r.GetCertificate(&tlsHello)
 						case "flap":
@@ -228,7 +228,7 @@ func c18Run(t *testing.T, p c18Plan) (res vfResult) {
 			return
 		}
 		// still alive and consistent: list works, a deploy still works
-		r.ListActiveServices()
+		vfList(r)
 		if err := deploy(r, "s2", 0); err != nil && vfErrClass(err) != "host-in-use" && vfErrClass(err) != "unhealthy" { // (a flapped target may still be failing)
 			res.failf("dead-after-storm", "a deploy after the concurrent phase failed: %v", err)
 			return
